@@ -136,21 +136,32 @@ example : fitAlign (sc [[0, -1, -1], [-1, 1, -1], [-1, -1, 1]]) (-2) [1, 2, 1] [
     .ok [⟨1, 3, 0, 2, 2⟩] := by decide +kernel
 
 /-- "each pair's reported score equals the score recomputed from the letters, matrix and gap
-    parameters" — **the part that holds for `NWAffine`** (`_partial`, finding K5).  Full statement:
-
-        nwAlign S open r q = .ok ps → faithful S open r q ps = true
-
-    It is false of the code (`pair_scores_not_faithful`).  What holds for all matrices, gap-open
-    values and non-empty sequences: whenever the traceback only takes `case`s that belong to its
-    current layer (the ghost flag of the model stays `false`), every block carries the sum of its
-    letter pairs and every gap pair `gapOpen` plus its per-letter gap scores. -/
-theorem pair_scores_faithful_partial (S : Matrix) (gapOpen : Int) (r q : List Nat) (hr : r ≠ [])
-    (hq : q ≠ []) (ps : List Pair) (h : nwAlignT S gapOpen r q = .ok (ps, false)) :
+    parameters" — **`NWAffine`, the full statement** (after the repair of K5: every `case` of
+    the traceback switch is guarded by the layer it is a legal predecessor of).  For all
+    matrices, gap-open values and non-empty sequences: every block carries the sum of its
+    letter pairs and every gap pair `gapOpen` plus its per-letter gap scores, the leading gap
+    block included. -/
+theorem pair_scores_faithful (S : Matrix) (gapOpen : Int) (r q : List Nat) (hr : r ≠ [])
+    (hq : q ≠ []) (ps : List Pair) (h : nwAlign S gapOpen r q = .ok ps) :
     faithful S gapOpen r q ps = true :=
   Biogo.Proofs.NWFaith.nwAlign_faithful S gapOpen r q hr hq ps h
 
-/-- non-vacuity: a traceback with a gap and no tie -/
+/-- non-vacuity: a traceback with a gap; and the K5 witness, now faithful -/
 example : nwAlign (sc [[0, -1, -1], [-1, 1, -1], [-1, -1, 1]]) (-2) [1, 2, 1] [1, 1] =
+      .ok [⟨0, 1, 0, 1, 1⟩, ⟨1, 2, 1, 1, -3⟩, ⟨2, 3, 1, 2, 1⟩] := by decide +kernel
+
+/-- The statement that held before the repair, kept for either switch: whenever the traceback
+    (layer-aware, `aware = true`, or the layer-blind one it replaced, `aware = false`) only
+    takes `case`s that belong to its current layer (the ghost flag of the model stays `false`),
+    the pair scores are the recomputed ones.  (It was `_partial` while the code had the
+    layer-blind switch; `pair_scores_faithful` is now the full statement.) -/
+theorem pair_scores_faithful_partial (aware : Bool) (S : Matrix) (gapOpen : Int) (r q : List Nat)
+    (hr : r ≠ []) (hq : q ≠ []) (ps : List Pair) (h : nwAlignT aware S gapOpen r q = .ok (ps, false)) :
+    faithful S gapOpen r q ps = true :=
+  Biogo.Proofs.NWFaith.nwAlignT_faithful aware S gapOpen r q hr hq ps h
+
+/-- non-vacuity: a layer-blind traceback with a gap and no tie -/
+example : legacyPairs .nw (sc [[0, -1, -1], [-1, 1, -1], [-1, -1, 1]]) (-2) [1, 2, 1] [1, 1] =
       .ok [⟨0, 1, 0, 1, 1⟩, ⟨1, 2, 1, 1, -3⟩, ⟨2, 3, 1, 2, 1⟩] ∧
     tieSwitched .nw (sc [[0, -1, -1], [-1, 1, -1], [-1, -1, 1]]) (-2) [1, 2, 1] [1, 1] = false := by
   decide +kernel
@@ -160,18 +171,25 @@ def tieM : List (List Int) :=
   [[0, -1, -1, -1, -1], [-1, -10, -10, -10, -10], [-1, -10, -10, -10, -10], [-1, -10, -10, -10, -10],
    [-1, -10, -10, -10, -10]]
 
-/-- Refutation of "each pair's reported score equals the score recomputed from the letters,
-    matrix and gap parameters" for `NWAffine` (finding K5): with all letter pairs −10, gap
-    letters −1, gap-open −1, `r = aa`, `q = aaa` the last pair (gap in the reference against query `[2,3)`) is reported with −1
-    (no gap-open) although it is a gap of its own; recomputed −2.  The traceback compared
-    the value of the `up` layer with the `left`-extension candidate and took it. -/
-theorem pair_scores_not_faithful :
-    ∃ (M : List (List Int)) (gapOpen : Int) (r q : List Nat) (ps : List Pair),
+/-- **Why the repair was needed** (K5, fixed): the layer-blind switch (`legacyPairs`, the
+    traceback as it was before the repair) violates "each pair's reported score equals the score
+    recomputed from the letters, matrix and gap parameters".  With all letter pairs −10, gap
+    letters −1, gap-open −1, `r = aa`, `q = aaa` its last pair (gap in the reference against
+    query `[2,3)`) is reported with −1 (no gap-open) although it is a gap of its own; recomputed
+    −2.  It compared the value of the `up` layer with the `left`-extension candidate and took it.
+    On the same input the repaired traceback (`nwAlign`) returns faithful pairs with the same
+    total. -/
+theorem legacy_pair_scores_not_faithful :
+    ∃ (M : List (List Int)) (gapOpen : Int) (r q : List Nat) (ps ps' : List Pair),
       gapOpen ≤ 0 ∧ (∀ x, x < 5 → sc M x 0 ≤ 0 ∧ sc M 0 x ≤ 0) ∧
-      nwAlign (sc M) gapOpen r q = .ok ps ∧ wellFormed ps = true ∧
-      faithful (sc M) gapOpen r q ps = false ∧ tieSwitched .nw (sc M) gapOpen r q = true :=
+      legacyPairs .nw (sc M) gapOpen r q = .ok ps ∧ wellFormed ps = true ∧
+      faithful (sc M) gapOpen r q ps = false ∧ tieSwitched .nw (sc M) gapOpen r q = true ∧
+      nwAlign (sc M) gapOpen r q = .ok ps' ∧ faithful (sc M) gapOpen r q ps' = true ∧
+      total ps' = total ps :=
   ⟨tieM, -1, [1, 1], [1, 1, 1],
     [⟨0, 1, 0, 1, -10⟩, ⟨1, 1, 1, 2, -2⟩, ⟨1, 2, 2, 2, -2⟩, ⟨2, 2, 2, 3, -1⟩],
-    by decide, by decide, by decide +kernel, by decide, by decide +kernel, by decide +kernel⟩
+    [⟨0, 0, 0, 2, -3⟩, ⟨0, 1, 2, 3, -10⟩, ⟨1, 2, 3, 3, -2⟩],
+    by decide, by decide, by decide +kernel, by decide, by decide +kernel, by decide +kernel,
+    by decide +kernel, by decide +kernel, by decide⟩
 
 end Biogo.Properties.C09_aff
